@@ -148,6 +148,24 @@ BlockTab ==
    \* two Tags directives under one method: the second one would never be looked up -- rejected
    tags2 |-> << D("GET", <<"pt2">>, "", FALSE, "", ""), D("Tags", <<"@g1">>, "", FALSE, "", ""), D("Tags", <<"@g_2">>, "", FALSE, "", ""),
                 D("RESP", <<"any">>, "", FALSE, "", "200") >>,                                                              \* needs tag1, tag2
+   \* two resources whose paths differ by the trailing slash only (either order)
+   urlS1 |-> << D("URL", <<"psl">>, "", FALSE, "", ""), D("GET", <<>>, "", FALSE, "", ""), D("RESP", <<"any">>, "", FALSE, "", "200") >>,
+   urlS2 |-> << D("URL", <<"psls">>, "", FALSE, "", ""), D("GET", <<>>, "", FALSE, "", ""), D("RESP", <<"any">>, "", FALSE, "", "200") >>,
+   \* one JSON-RPC method defined twice in one URL: rejected on the second Method
+   rpcDup |-> << D("URL", <<"prd">>, "", FALSE, "", ""), D("Protocol", <<"json-rpc-2.0">>, "", FALSE, "", ""),
+                 D("Method", <<"foo">>, "", FALSE, "", ""), D("Params", <<>>, "", FALSE, "obj", ""),
+                 D("Method", <<"foo">>, "", FALSE, "", ""), D("Params", <<>>, "", FALSE, "obj2", "") >>,
+   \* a macro of root-level content and its root-level PASTE (a document may begin with it)
+   macT  |-> << D("MACRO", <<"@mt">>, "", TRUE, "", ""), D("GET", <<"pmt">>, "", FALSE, "", ""), D("RESP", <<"any">>, "", FALSE, "", "200"), CloseTok >>,
+   useMT |-> << D("PASTE", <<"@mt">>, "", FALSE, "", "") >>,                                                       \* needs macT
+   \* Path body with three unused properties whose names differ in case only: the message lists them in one fixed order
+   pathCase |-> << D("GET", <<"ppc">>, "", FALSE, "", ""), D("Path", <<>>, "", FALSE, "pcase", ""), D("RESP", <<"any">>, "", FALSE, "", "200") >>,
+   \* a rule whose value is an empty array
+   respNull |-> << D("GET", <<"pmt">>, "", FALSE, "", ""), D("RESP", <<>>, "", FALSE, "objnull", "200") >>,
+   \* two root-level PASTEs in a row: the first leaves the context of its method open, the second brings the response
+   rootPastes |-> << D("MACRO", <<"@mg">>, "", TRUE, "", ""), D("GET", <<"pgr">>, "", FALSE, "", ""), CloseTok,
+                     D("MACRO", <<"@mr">>, "", TRUE, "", ""), D("RESP", <<"any">>, "", FALSE, "", "200"), CloseTok,
+                     D("PASTE", <<"@mg">>, "", FALSE, "", ""), D("PASTE", <<"@mr">>, "", FALSE, "", "") >>,
    sim   |-> << D("GET", <<"pax">>, "", FALSE, "", ""), D("RESP", <<"any">>, "", FALSE, "", "200") >>]          \* /a/{x}: similar to /a/{id}
 BlockIds == DOMAIN BlockTab
 
